@@ -29,9 +29,9 @@ Definition parse_list_line (unix : text -> res (text * linfo)) (others : list (t
    is outside the model.) *)
 Definition windows_needs_M (b : text) : bool := existsb (fun c => c =? 77) b.
 
-(* ---- the eager `await client.list(...)`: every line through `parse`, "." / ".." skipped, the
-   first failing line raises for the whole listing; an entry without a "type" fact raises KeyError
-   (the loop evaluates info["type"] for every entry it returns) ---- *)
+(* ---- the eager `await client.list(...)`: every line through `parse`; a parsed line without a
+   "type" fact raises ValueError (checked before the "." / ".." skip); "." / ".." are skipped; the
+   first failing line raises for the whole listing ---- *)
 Definition is_dot_name (n : text) : bool := text_eqb n DOT || text_eqb n DOTDOT.
 
 Fixpoint client_collect {I : Type} (parse : text -> res (text * I)) (has_type : I -> bool) (lines : list text)
@@ -40,8 +40,8 @@ Fixpoint client_collect {I : Type} (parse : text -> res (text * I)) (has_type : 
   | [] => Ok []
   | l :: rest =>
       bind (parse l) (fun r =>
-      if is_dot_name (fst r) then client_collect parse has_type rest
-      else if negb (has_type (snd r)) then Err E_KEY        (* info["type"] == "dir" and recursive *)
+      if negb (has_type (snd r)) then Err E_VALUE          (* if "type" not in info: raise ValueError *)
+      else if is_dot_name (fst r) then client_collect parse has_type rest
       else bind (client_collect parse has_type rest) (fun rs => Ok (r :: rs)))
   end.
 
@@ -66,11 +66,12 @@ Definition c250 : text := [50; 53; 48].
 Definition mlst_lines (st : option stats) (kind : Z) (name : text) : list text :=
   [t_start; build_mlsx_string st kind name; t_end].
 
-(* name, info = self.parse_mlsx_line(info[1].lstrip()); return info   (IndexError: one-line reply) *)
+(* name, info = self.parse_mlsx_line(info[1].lstrip()); return info   (IndexError: one-line reply;
+   ValueError: no pathname in the line) *)
 Definition client_stat_mlst (info : list text) : res (list (text * text)) :=
   match nth_error info 1 with
   | None => Err E_INDEX
-  | Some l => Ok (snd (parse_mlsx_line (lstrip l)))
+  | Some l => bind (parse_mlsx_line (lstrip l)) (fun r => Ok (snd r))
   end.
 
 (* the fallback loop over the parent's listing: first entry whose name equals path.name;
@@ -97,7 +98,7 @@ Definition run_listing_client (fn : Z) (a : sx) : sx :=
                         (map text_of_sx (list_of_sx (nth_sx 3 a))))
   | 32 => (* eager MLSD listing *)
       sx_of_res (fun rs => L (map (fun r => L [sx_of_text (fst r); sx_of_entry (snd r)]) rs))
-        (client_collect (fun l => Ok (parse_mlsx_line l)) entry_has_type (map text_of_sx (list_of_sx (nth_sx 0 a))))
+        (client_collect parse_mlsx_line entry_has_type (map text_of_sx (list_of_sx (nth_sx 0 a))))
   | 33 => (* list_plan_of *)
       I (match list_plan_of (z 0%nat) (negb (z 1%nat =? 0)) with UseMLSD => 0 | UseLIST => 1 | RaiseStatus => 2 end)
   | 34 => (* the server's MLST lines *)
